@@ -484,3 +484,61 @@ func SecondGenesis() (panicked bool, errText string, changed bool, err error) {
 	after, _ := f.Tip()
 	return panicked, errText, before != after, nil
 }
+
+// DeepFork builds a proof-of-work history in which a fork starting 7-15 blocks
+// below the final trunk tip overtakes late: the trunk is delivered up to some
+// height, the first blocks of the side branch arrive (at a random moment, not
+// heavier yet), the trunk connects further blocks, then the rest of the side
+// branch arrives parent first until it is 1-2 blocks higher than the trunk;
+// sometimes the trunk then answers with a shallow fork back.  No irreversibility
+// is involved (heights are below CRCOnlyDPOSHeight), so the node must follow.
+func DeepFork(rng *lib.Rng) ([]Blk, []int) {
+	depth := rng.Range(7, 15)
+	fp := rng.Range(0, 3)    // fork point height (trunk block id = height)
+	trunk := fp + depth      // final trunk height
+	early := rng.Range(1, 4) // side blocks delivered before the trunk is complete
+	over := rng.Range(1, 2)
+	side := depth + over
+	if early > side-1 {
+		early = side - 1
+	}
+	var bs []Blk
+	prev := 0
+	for h := 1; h <= trunk; h++ {
+		bs = append(bs, Blk{ID: len(bs) + 1, Parent: prev})
+		prev = len(bs)
+	}
+	prev = fp
+	sideIDs := []int{}
+	for k := 0; k < side; k++ {
+		bs = append(bs, Blk{ID: len(bs) + 1, Parent: prev})
+		prev = len(bs)
+		sideIDs = append(sideIDs, prev)
+	}
+	// the early side blocks are delivered once the trunk has reached height at,
+	// with fp+early <= at (not heavier) and at < trunk (the trunk still grows)
+	lo := fp + early
+	if lo < 1 {
+		lo = 1
+	}
+	at := rng.Range(lo, trunk-1)
+	var ord []int
+	for h := 1; h <= at; h++ {
+		ord = append(ord, h)
+	}
+	ord = append(ord, sideIDs[:early]...)
+	for h := at + 1; h <= trunk; h++ {
+		ord = append(ord, h)
+	}
+	ord = append(ord, sideIDs[early:]...)
+	if rng.Chance(40) {
+		// the old trunk comes back with a shallow extension
+		p := trunk
+		for k := 0; k < over+1; k++ {
+			bs = append(bs, Blk{ID: len(bs) + 1, Parent: p})
+			p = len(bs)
+			ord = append(ord, p)
+		}
+	}
+	return bs, ord
+}
